@@ -11,26 +11,6 @@ observed.
 -/
 namespace BreezyVerif.C52
 
-/-- the flags of every factory only destroy a tree that exists and only create one that does not -/
-theorem factory_tree_flags (l : Loc) (t : Target) (f : Flags) (h : factory l t = .ok f) :
-    (f.destroyTree = true → l.tree = true) ∧ (f.createTree = true → l.tree = false) := by
-  cases t <;> simp [factory, plan, planShared] at h
-  all_goals first
-    | (subst h; simp) ; done
-    | (cases hr : l.repo <;> simp_all <;> (subst h; simp))
-    | skip
-  all_goals (cases hr : l.repo <;> try simp_all) <;> (try subst h) <;> simp_all
-
-/-- a reference is only ever created in place of a local branch -/
-theorem factory_reference_flag (l : Loc) (t : Target) (f : Flags) (h : factory l t = .ok f) :
-    f.createReference = true → l.branch ≠ .reference := by
-  cases t <;> simp [factory, plan, planShared] at h
-  all_goals first
-    | (subst h; simp) ; done
-    | (cases hr : l.repo <;> simp_all <;> (subst h; simp))
-    | skip
-  all_goals (cases hr : l.repo <;> try simp_all) <;> (try subst h) <;> simp_all
-
 /-- **One transition, forced or not** (`to_branch`, `to_tree`, `to_checkout`,
 `to_lightweight_checkout`, `to_standalone`, `to_use_shared`): the format tag is
 unchanged; tip and history are unchanged or become those of the branch at the
@@ -40,8 +20,8 @@ nowhere; a working tree that is kept keeps its content and pending changes; a
 tree is only removed when it has no pending changes, unless forced; a tree that
 is created is the clean tree of the tip.  Holds for the state reached on
 success, on refusal and on a failure in mid-`apply`. -/
-theorem reconfigure_keeps_any (t : Target) (force : Bool) (l : Loc) (hinv : NoConflict l.tags l.refTags) :
-    KeepsF force l (reconfigure t force l).1 := by
+theorem reconfigure_keeps_any (v : Variant) (t : Target) (force : Bool) (l : Loc) (hinv : NoConflict l.tags l.refTags) :
+    KeepsF force l (reconfigure v t force l).1 := by
   unfold reconfigure
   cases hf : factory l t with
   | error e => exact keepsF_refl force l hinv
@@ -49,13 +29,13 @@ theorem reconfigure_keeps_any (t : Target) (force : Bool) (l : Loc) (hinv : NoCo
     have hfl := factory_tree_flags l t f hf
     by_cases ha : f.any = true
     · simp only [ha, if_true]
-      exact applyFlags_keepsF l f force hinv hfl.1 hfl.2
+      exact applyFlags_keepsF v l f force hinv hfl.1 hfl.2
     · simp only [ha]; exact keepsF_refl force l hinv
 
 /-- **One transition, not forced**: in addition tip and history are unchanged —
 `_check` refuses to replace the branch by a reference to a branch with another tip. -/
-theorem convert_preserves_obs (t : Target) (l : Loc) (hinv : RefInv l) : Keeps l (reconfigure t false l).1 := by
-  refine ⟨?_, ?_, reconfigure_keeps_any t false l hinv.2⟩
+theorem convert_preserves_obs (v : Variant) (t : Target) (l : Loc) (hinv : RefInv l) : Keeps l (reconfigure v t false l).1 := by
+  refine ⟨?_, ?_, reconfigure_keeps_any v t false l hinv.2⟩
   all_goals
     unfold reconfigure
     cases hf : factory l t with
@@ -64,23 +44,9 @@ theorem convert_preserves_obs (t : Target) (l : Loc) (hinv : RefInv l) : Keeps l
       by_cases ha : f.any = true
       · simp only [ha, if_true]
         first
-          | exact (applyFlags_tip l f hinv (factory_reference_flag l t f hf)).1
-          | exact (applyFlags_tip l f hinv (factory_reference_flag l t f hf)).2
+          | exact (applyFlags_tip v l f hinv (factory_reference_flag l t f hf)).1
+          | exact (applyFlags_tip v l f hinv (factory_reference_flag l t f hf)).2
       · simp only [ha]; rfl
-
-theorem keeps_treeInv (l l' : Loc) (h : Keeps l l') (hi : TreeInv l) : TreeInv l' := by
-  obtain ⟨h1, _, _, _, _, h5, _, h7⟩ := h
-  unfold TreeInv at *
-  intro ht hd
-  cases hlt : l.tree
-  · exact (h7 hlt ht).2
-  · have := h5 hlt ht
-    rw [this.1, h1]; exact hi hlt (by rw [← this.2]; exact hd)
-
-theorem keeps_refInv (l l' : Loc) (h : Keeps l l') (hi : RefInv l) : RefInv l' := by
-  obtain ⟨h1, h2, _, _, hr, _⟩ := h
-  obtain ⟨r1, r2, _, _, _, _, r7⟩ := hr
-  exact ⟨by rw [r1, r2, h1, h2]; exact hi.1, r7⟩
 
 /-- **Any path through the layout graph.**  Starting from a location whose
 clean tree (if it has one and it is clean) is the tree of its tip, after any
@@ -90,8 +56,8 @@ and every tag at the end was a tag of the location or of the branch at the bind
 location; pending changes are never lost (a tree with pending changes is still
 there, untouched); and whenever the location has a working tree at the start
 and at the end, its content and pending-change state are the same. -/
-theorem reconfigure_composes (ts : List Target) (l : Loc) (hi : TreeInv l) (hr : RefInv l) :
-    let l' := runAll false ts l
+theorem reconfigure_composes (v : Variant) (ts : List Target) (l : Loc) (hi : TreeInv l) (hr : RefInv l) :
+    let l' := runAll v false ts l
     l'.tip = l.tip ∧ l'.hist = l.hist ∧ l'.format = l.format ∧
     TagsSub l.tags l'.tags ∧ TagsFrom l.tags l.refTags l'.tags ∧ TagsFrom l.tags l.refTags l'.refTags ∧
     (l.tree = true → l.dirty = true → l'.tree = true ∧ l'.treeCode = l.treeCode ∧ l'.dirty = true) ∧
@@ -105,15 +71,15 @@ theorem reconfigure_composes (ts : List Target) (l : Loc) (hi : TreeInv l) (hr :
       intro a b <;> simp_all
   | cons t ts ih =>
     simp only [runAll]
-    have hk := convert_preserves_obs t l hr
+    have hk := convert_preserves_obs v t l hr
     have hi' := keeps_treeInv l _ hk hi
     have hr' := keeps_refInv l _ hk hr
-    have := ih (reconfigure t false l).1 hi' hr'
+    have := ih (reconfigure v t false l).1 hi' hr'
     unfold TreeInv at hi hi'
     obtain ⟨k1, k2, _, k4, ⟨_, _, kt1, kt2, kt3, kt4, _⟩, k5, k6, k7⟩ := hk
     obtain ⟨a1, a2, a4, at1, at2, at3, a5, a6, a7⟩ := this
-    generalize (reconfigure t false l).1 = m at *
-    generalize runAll false ts m = r at *
+    generalize (reconfigure v t false l).1 = m at *
+    generalize runAll v false ts m = r at *
     have hfrom : ∀ ts' : Tags, TagsFrom m.tags m.refTags ts' → TagsFrom l.tags l.refTags ts' := by
       intro ts' h n v hv
       rcases h n v hv with h | h
@@ -145,19 +111,19 @@ theorem reconfigure_composes (ts : List Target) (l : Loc) (hi : TreeInv l) (hr :
 /-- **Any path, forced or not**: tip and history at the end are those at the
 start or those of the branch at the bind location (never anything else), the
 format tag stays, every tag keeps its definition and none appears from nowhere. -/
-theorem forced_path_tip (force : Bool) (ts : List Target) (l : Loc) (hinv : NoConflict l.tags l.refTags) :
-    let l' := runAll force ts l
+theorem forced_path_tip (v : Variant) (force : Bool) (ts : List Target) (l : Loc) (hinv : NoConflict l.tags l.refTags) :
+    let l' := runAll v force ts l
     TipKeeps l l' ∧ l'.format = l.format ∧ TagsSub l.tags l'.tags ∧ TagsFrom l.tags l.refTags l'.tags := by
-  suffices h : TipKeeps l (runAll force ts l) ∧ (runAll force ts l).format = l.format ∧ RefKeeps l (runAll force ts l) from
+  suffices h : TipKeeps l (runAll v force ts l) ∧ (runAll v force ts l).format = l.format ∧ RefKeeps l (runAll v force ts l) from
     ⟨h.1, h.2.1, h.2.2.2.2.1, h.2.2.2.2.2.2.1⟩
   induction ts generalizing l with
   | nil => exact ⟨Or.inl ⟨rfl, rfl⟩, rfl, refKeeps_refl l hinv⟩
   | cons t ts ih =>
     simp only [runAll]
-    obtain ⟨k1, k2, ⟨r1, r2, r3, r4, r5, r6, r7⟩, _⟩ := reconfigure_keeps_any t force l hinv
-    obtain ⟨a1, a2, ⟨s1, s2, s3, s4, s5, s6, s7⟩⟩ := ih (reconfigure t force l).1 r7
-    generalize (reconfigure t force l).1 = m at *
-    generalize runAll force ts m = r at *
+    obtain ⟨k1, k2, ⟨r1, r2, r3, r4, r5, r6, r7⟩, _⟩ := reconfigure_keeps_any v t force l hinv
+    obtain ⟨a1, a2, ⟨s1, s2, s3, s4, s5, s6, s7⟩⟩ := ih (reconfigure v t force l).1 r7
+    generalize (reconfigure v t force l).1 = m at *
+    generalize runAll v force ts m = r at *
     have hfrom : ∀ ts' : Tags, TagsFrom m.tags m.refTags ts' → TagsFrom l.tags l.refTags ts' := by
       intro ts' h n v hv
       rcases h n v hv with h | h
@@ -172,49 +138,58 @@ theorem forced_path_tip (force : Bool) (ts : List Target) (l : Loc) (hinv : NoCo
     · exact Or.inr ⟨a.trans r1, b.trans r2⟩
 
 /-- a forced path from a location that is in sync with its bind location keeps tip and history -/
-theorem forced_synced_preserves (ts : List Target) (l : Loc) (hr : RefInv l) (hs : l.refTip = l.tip) :
-    (runAll true ts l).tip = l.tip ∧ (runAll true ts l).hist = l.hist := by
-  have h := (forced_path_tip true ts l hr.2).1
+theorem forced_synced_preserves (v : Variant) (ts : List Target) (l : Loc) (hr : RefInv l) (hs : l.refTip = l.tip) :
+    (runAll v true ts l).tip = l.tip ∧ (runAll v true ts l).hist = l.hist := by
+  have h := (forced_path_tip v true ts l hr.2).1
   unfold TipKeeps at h
   rcases h with h | h
   · exact h
   · exact ⟨h.1.trans hs, h.2.trans (hr.1 hs)⟩
 
 /-- **The layout asked for is the layout obtained**: a `to_X` that succeeds (forced or not) leaves layout X. -/
-theorem reconfigure_ok_layout (t : Target) (force : Bool) (l : Loc) (h : (reconfigure t force l).2 = none) :
-    layoutIs t (reconfigure t force l).1 = true := layout_ok t force l h
+theorem reconfigure_ok_layout (v : Variant) (t : Target) (force : Bool) (l : Loc) (h : (reconfigure v t force l).2 = none) :
+    layoutIs t (reconfigure v t force l).1 = true := layout_ok v t force l h
 
 /-- `AlreadyBranch` / `AlreadyTree` / … is raised exactly when the location has the layout asked for -/
-theorem already_iff_layout (t : Target) (force : Bool) (l : Loc) :
-    (reconfigure t force l).2 = some .already ↔ layoutIs t l = true := layout_already t force l
+theorem already_iff_layout (v : Variant) (t : Target) (force : Bool) (l : Loc) :
+    (reconfigure v t force l).2 = some .already ↔ layoutIs t l = true := layout_already v t force l
 
 /-- an error other than NoBindLocation / NoSharedRepository leaves the location exactly as it was -/
-theorem refusal_changes_nothing (t : Target) (force : Bool) (l : Loc) (e : Err) (h : (reconfigure t force l).2 = some e)
+theorem refusal_changes_nothing (v : Variant) (t : Target) (force : Bool) (l : Loc) (e : Err) (h : (reconfigure v t force l).2 = some e)
     (he : e = .already ∨ e = .notSupported ∨ e = .uncommittedChanges ∨ e = .unsyncedBranches) :
-    (reconfigure t force l).1 = l := refusal_same t force l e h he
+    (reconfigure v t force l).1 = l := refusal_same v t force l e h he
 
 /-- why `_check` matters: with `force` a tree with pending changes is removed -/
 theorem force_destroys_witness :
     let l : Loc := { tree := true, dirty := true, branch := .unbound, repo := .own, sharedAbove := false, bindKnown := false,
                      format := 0, tip := 1, hist := 1, tags := [], treeCode := 0, refTip := 1, refHist := 1, refTags := [] }
-    (reconfigure .branch true l).1.tree = false ∧ (reconfigure .branch true l).2 = none ∧
-    (reconfigure .branch false l) = (l, some .uncommittedChanges) := by decide
+    (reconfigure ⟨false⟩ .branch true l).1.tree = false ∧ (reconfigure ⟨false⟩ .branch true l).2 = none ∧
+    (reconfigure ⟨false⟩ .branch false l) = (l, some .uncommittedChanges) := by decide
 
 /-- … and a branch is replaced by a reference to a branch with ANOTHER tip: the tip moves (refused when not forced) -/
 theorem force_moves_tip_witness :
     let l : Loc := { tree := true, dirty := false, branch := .bound, repo := .shared, sharedAbove := true, bindKnown := true,
                      format := 0, tip := 1, hist := 1, tags := [(0, 1)], treeCode := 0, refTip := 2, refHist := 2, refTags := [(1, 1)] }
-    (reconfigure .lightweightCheckout true l).2 = none ∧ (reconfigure .lightweightCheckout true l).1.tip = 2 ∧
-    (reconfigure .lightweightCheckout true l).1.tags = [(1, 1), (0, 1)] ∧
-    (reconfigure .lightweightCheckout false l) = (l, some .unsyncedBranches) := by decide
+    (reconfigure ⟨false⟩ .lightweightCheckout true l).2 = none ∧ (reconfigure ⟨false⟩ .lightweightCheckout true l).1.tip = 2 ∧
+    (reconfigure ⟨false⟩ .lightweightCheckout true l).1.tags = [(1, 1), (0, 1)] ∧
+    (reconfigure ⟨false⟩ .lightweightCheckout false l) = (l, some .unsyncedBranches) := by decide
 
 /-- two definitions of one tag: `merge_to` keeps the referenced branch's, the local definition is dropped silently
 (this is what `NoConflict` excludes) -/
 theorem tag_conflict_witness :
     let l : Loc := { tree := true, dirty := false, branch := .unbound, repo := .own, sharedAbove := false, bindKnown := true,
                      format := 0, tip := 1, hist := 1, tags := [(0, 1)], treeCode := 0, refTip := 1, refHist := 1, refTags := [(0, 2)] }
-    (reconfigure .lightweightCheckout false l).2 = none ∧ lookupTag l.tags 0 = some 1 ∧
-    lookupTag (reconfigure .lightweightCheckout false l).1.tags 0 = some 2 := by decide
+    (reconfigure ⟨false⟩ .lightweightCheckout false l).2 = none ∧ lookupTag l.tags 0 = some 1 ∧
+    lookupTag (reconfigure ⟨false⟩ .lightweightCheckout false l).1.tags 0 = some 2 := by decide
+
+/-- the variant of `_check` that compares the tag dictionaries refuses exactly that (nothing changes) -/
+theorem tagcheck_refuses_conflict (l : Loc) (hc : hasConflict l.tags l.refTags = true) (hb : l.branch ≠ .reference) :
+    (reconfigure ⟨true⟩ .lightweightCheckout false l).1 = l ∧ (reconfigure ⟨true⟩ .lightweightCheckout false l).2 ≠ none := by
+  obtain ⟨tree, dirty, branch, repo, above, known, format, tip, hist, tags, treeCode, refTip, refHist, refTags⟩ := l
+  simp only at hc hb
+  cases branch <;> simp at hb <;>
+    cases tree <;> cases dirty <;> cases repo <;> cases known <;> cases hs : (refTip == tip) <;>
+      simp [reconfigure, factory, plan, Flags.any, applyFlags, Loc.synced, hc, hs]
 
 /-- a failure in the middle of `apply` leaves the earlier steps done: a branch
 without a remembered location asked to become a checkout gets its working tree
@@ -222,8 +197,8 @@ and then fails with NoBindLocation -/
 theorem partial_apply_witness :
     let l : Loc := { tree := false, dirty := false, branch := .unbound, repo := .own, sharedAbove := false, bindKnown := false,
                      format := 0, tip := 1, hist := 1, tags := [], treeCode := 0, refTip := 1, refHist := 1, refTags := [] }
-    (reconfigure .checkout false l).2 = some .noBindLocation ∧ (reconfigure .checkout false l).1.tree = true ∧
-    (reconfigure .checkout false l).1.branch = .unbound := by decide
+    (reconfigure ⟨false⟩ .checkout false l).2 = some .noBindLocation ∧ (reconfigure ⟨false⟩ .checkout false l).1.tree = true ∧
+    (reconfigure ⟨false⟩ .checkout false l).1.branch = .unbound := by decide
 
 /-! non-vacuity: a dirty bound checkout in a shared repository whose master has one more tag walks through five layouts
 and keeps everything; the same with a CLEAN tree (`TreeInv` holds non-trivially: tree code = clean code of the tip) that
@@ -236,9 +211,9 @@ def exClean : Loc := { exDirty with dirty := false, treeCode := cleanCode 5 }
 
 example :
     TreeInv exDirty ∧ RefInv exDirty ∧
-    (runAll false [.lightweightCheckout, .tree, .standalone, .checkout, .useShared, .branch] exDirty).branch = .unbound ∧
-    (runAll false [.lightweightCheckout, .tree, .standalone, .checkout, .useShared, .branch] exDirty).tree = true ∧
-    (runAll false [.lightweightCheckout, .tree, .standalone, .checkout, .useShared, .branch] exDirty).tags = [(0, 3), (1, 4)] := by
+    (runAll ⟨false⟩ false [.lightweightCheckout, .tree, .standalone, .checkout, .useShared, .branch] exDirty).branch = .unbound ∧
+    (runAll ⟨false⟩ false [.lightweightCheckout, .tree, .standalone, .checkout, .useShared, .branch] exDirty).tree = true ∧
+    (runAll ⟨false⟩ false [.lightweightCheckout, .tree, .standalone, .checkout, .useShared, .branch] exDirty).tags = [(0, 3), (1, 4)] := by
   refine ⟨by intro _ h; simp [exDirty] at h, ⟨fun _ => rfl, ?_⟩, by decide, by decide, by decide⟩
   intro n v w h1 h2
   simp only [exDirty, lookupTag] at h1 h2
@@ -246,11 +221,11 @@ example :
 
 example :
     TreeInv exClean ∧ exClean.tree = true ∧ exClean.dirty = false ∧
-    (runAll false [.branch, .lightweightCheckout, .tree] exClean).tree = true ∧
-    obs (runAll false [.branch, .lightweightCheckout, .tree] exClean) = { obs exClean with tags := [(0, 3), (1, 4)] } := by
+    (runAll ⟨false⟩ false [.branch, .lightweightCheckout, .tree] exClean).tree = true ∧
+    obs (runAll ⟨false⟩ false [.branch, .lightweightCheckout, .tree] exClean) = { obs exClean with tags := [(0, 3), (1, 4)] } := by
   refine ⟨fun _ _ => rfl, rfl, rfl, by decide, by decide⟩
 
-example : (reconfigure .tree false exDirty).2 = none ∧ layoutIs .tree exDirty = false := by decide
+example : (reconfigure ⟨false⟩ .tree false exDirty).2 = none ∧ layoutIs .tree exDirty = false := by decide
 
 /-! ## format upgrade -/
 
